@@ -418,6 +418,12 @@ def main_wrapper(fn, prop):
     ap.add_argument("--keep", action="store_true")
     a = ap.parse_args(sys.argv[2:])
     seed = int(os.environ.get("VERIF_SEED", "1"))
+    if a.replay:
+        # a replay file names the seed and tier of the run that produced it; drivers are deterministic functions of the seed,
+        # so re-running the check with them reproduces the recorded rejected events (compared at the end)
+        rp = json.load(open(a.replay))
+        seed, a.tier = int(rp.get("seed", seed)), rp.get("tier", a.tier)
+        log("replay of %s: seed %d, tier %s, %d recorded rejected events" % (a.replay, seed, a.tier, len(rp.get("rejected", []))))
     ctx = Ctx(prop, a.tier, seed)
     try:
         rc = fn(ctx)
@@ -432,6 +438,10 @@ def main_wrapper(fn, prop):
         log("INFRA-ERROR %s: timeout %s" % (prop, ex))
         rc = 2
     finally:
+        if a.replay:
+            now = {(os.path.basename(r["trace"]), r["index"], r["reason"]) for r in ctx.rejected}
+            was = {(r["trace"], r["index"], r["reason"]) for r in rp.get("rejected", [])}
+            log("replay: %d of the %d recorded rejected events recur" % (len(now & was), len(was)))
         if not a.keep:
             ctx.cleanup()
         else:
